@@ -163,15 +163,17 @@ PROPS = {
             {"harness": "H_C09_q", "cases": list(range(7)), "scale": SC},
             {"harness": "H_C09_sw", "cases": list(range(7)), "scale": SC},
             {"harness": "H_C09_s2", "cases": list(range(5)), "scale": SC},
+            {"harness": "H_C09_race", "scale": SC},
         ],
         "thorough": [
+            {"harness": "H_C09_race", "scale": SC},
             {"harness": "H_C09_s2", "cases": list(range(5)), "scale": SC},
             {"harness": "H_C09_t", "cases": list(range(7)), "scale": SC},
             {"harness": "H_C09_sw", "cases": list(range(7)), "scale": SC},
             {"harness": "H_C09_mid", "cases": list(range(7)), "scale": SC},
         ],
-        "covers": {"quick": ["C09.done", "C09b.done", "power.nothing-lost"]},
-        "bounds": {"quick": "2 keys; (a) prefix 2 puts + 1 symbolic step from {put, delete, compact, sync, close+open}, Close, power failure right after Close; (b) the closing session is the second one on the directory: puts, Close, Open, 1 symbolic step, Close, power failure; surviving prefixes as C06 but over all files (index, metadata, segments); both sync modes",
+        "covers": {"quick": ["C09.done", "C09b.done", "C09r.done", "power.nothing-lost"]},
+        "bounds": {"quick": "2 keys; (a) prefix 2 puts + 1 symbolic step from {put, delete, compact, sync, close+open}, Close, power failure right after Close; (b) the closing session is the second one on the directory: puts, Close, Open, 1 symbolic step, Close, power failure; (c) Close landing at every lock-free point of a running Compact that sealed the current segment, then power failure; surviving prefixes as C06 but over all files (index, metadata, segments); both sync modes",
                    "thorough": "2 steps; failure also at every mutating FS call of the next Open"},
         "assumptions": COMMON_ASSUME + ["power-loss model as C06"],
         "outside": "as C06",
@@ -248,16 +250,16 @@ PROPS = {
     "C07": {
         "quick": [
             {"harness": "H_C07_q", "cases": list(range(16)), "scale": SC, "chunk": 2},
-            {"harness": "H_C07_c", "cases": list(range(8)), "scale": SC, "chunk": 1},
+            {"harness": "H_C07_c", "cases": list(range(6)), "scale": SC, "chunk": 1},
         ],
         "thorough": [
             {"harness": "H_C07_t22", "cases": list(range(24)), "scale": SC, "chunk": 1, "maxsec": 3300},
-            {"harness": "H_C07_c", "cases": list(range(16)), "scale": SC, "chunk": 2},
+            {"harness": "H_C07_c", "cases": list(range(6)), "scale": SC, "chunk": 1},
             {"harness": "H_C07_t", "cases": list(range(16)), "scale": SC, "chunk": 1, "maxsec": 3300},
         ],
         "covers": {"quick": ["C07.done"]},
         "replay": False,
-        "bounds": {"quick": "threads with 2 + 1 operations (kind from {Put, Delete, Get, Has} and key symbolic choices) over 2 keys, and 2 threads x 1 operation with a concurrent Compact; lockset monitor on; schedule symbolic at every lock acquisition; after join one disjunctive SMT obligation: some order of the operations that respects their call/return stamps explains every result under register-with-delete semantics",
+        "bounds": {"quick": "threads with 2 + 1 operations (kind from {Put, Delete, Get, Has} and key symbolic choices) over 2 keys, and a writer (Put/Delete) + a reader (Get/Has) with a concurrent Compact over 3 keys in one bucket chain; lockset monitor on; schedule symbolic at every lock acquisition; after join one disjunctive SMT obligation: some order of the operations that respects their call/return stamps explains every result under register-with-delete semantics",
                    "thorough": "2 x 2 operations with GetAppend and Count as well; 3 threads (2 + 2 + 1 operations)"},
         "assumptions": COMMON_ASSUME + ["context switches only at lock acquisitions / thread exit: sound only together with C10's lockset monitor (every shared access inside a critical section)", "schedule-dependent counterexamples are not replayed natively (no hook inside Put/Get to force the schedule)"],
         "outside": "Go memory-model effects below lock granularity, more than 3 threads, Backup/Sync/Items as concurrent observers (see C10, C11, C12), background worker",
